@@ -4,6 +4,7 @@ import (
 	"flag"
 	"fmt"
 	"os"
+	"runtime/pprof"
 	"sort"
 	"strings"
 	"time"
@@ -24,8 +25,14 @@ func main() {
 	selftest := flag.Bool("selftest", false, "run the must-fail corpus")
 	seed := flag.Int64("seed", 0, "seed")
 	writeBaseline := flag.Bool("write-baseline", false, "record discharged obligations in baseline/obligations.json (run on the unchanged tree only)")
+	cpuprof := flag.String("cpuprofile", "", "write cpu profile")
 	flag.Parse()
 	_ = seed
+	if *cpuprof != "" {
+		f, _ := os.Create(*cpuprof)
+		pprof.StartCPUProfile(f)
+		defer pprof.StopCPUProfile()
+	}
 
 	if *dump != "" {
 		if err := dumpFunc(*repo, *verif, *dump); err != nil {
@@ -43,6 +50,9 @@ func main() {
 	t0 := time.Now()
 	opts := RunOpts{Repo: *repo, Verif: *verif, Prop: *prop, FuncFilter: *fn, Tier: *tier, KeepDir: *keep, Verbose: *verbose, Seed: *seed, WriteBaseline: *writeBaseline}
 	code := Run(opts, t0)
+	if *cpuprof != "" {
+		pprof.StopCPUProfile()
+	}
 	os.Exit(code)
 }
 
